@@ -266,3 +266,88 @@ def finish(ev, findings):
     sys.stdout.flush()
     close_drvs()
     return 1 if findings.violations else 0
+
+
+# ------------------------------------------------------------------ case running with replay-before-report (R3)
+def case_text(case, script=""):
+    return "# case=%s\n%s" % (json.dumps(case, sort_keys=True), script)
+
+
+def load_case(path):
+    for line in open(path, encoding="latin-1"):
+        if line.startswith("# case="):
+            return json.loads(line[len("# case="):])
+    raise SystemExit("no '# case=' line in %s" % path)
+
+
+def _confirm(args):
+    run_case, case, fp = args
+    hits = 0
+    for _ in range(2):
+        close_drvs()                       # brand-new driver process
+        res = run_case(case)
+        if any(p[0] == fp for p in res.get("problems", [])):
+            hits += 1
+    close_drvs()
+    return hits == 2
+
+
+def explore_cases(cases, run_case, ev, findings, pool, chunksize=1, deadline=None, max_confirm_per_fp=1):
+    """Run every case, collect candidate problems, confirm each distinct fingerprint by two fresh replays of its
+    first (simplest) case, then report.  Returns False if the deadline cut the enumeration."""
+    cand = {}          # fp -> list of (order, case, what, script)
+    complete = True
+    n = 0
+    for res in pool.map(run_case, cases, chunksize, ordered=True):
+        n += 1
+        ev.traces += 1
+        ev.transitions += res.get("ops", 1)
+        for s in res.get("states", ()):
+            ev.state(s)
+        if "outcome" in res:
+            ev.outcome(res["outcome"])
+        if res.get("not_completed"):
+            ev.not_completed += 1
+        if "sample" in res:
+            ev.sample(res["sample"])
+        for d in res.get("diagnostics", ()):
+            ev.diag(d)
+        for p in res.get("problems", ()):
+            fp, what = p[0], p[1]
+            cand.setdefault(fp, [])
+            if len(cand[fp]) < max_confirm_per_fp:
+                cand[fp].append((res["case"], what, res.get("script", "")))
+        if deadline is not None and deadline.passed():
+            complete = False
+            break
+    for fp in sorted(cand):
+        for case, what, script in cand[fp]:
+            ok = list(pool.map(_confirm, [(run_case, case, fp)]))[0]
+            if ok:
+                findings.report(fp, what, case_text(case, script))
+                break
+            else:
+                ev.diag("unconfirmed candidate (did not reproduce twice in fresh processes): %s" % fp)
+    return complete
+
+
+def replay_main(prop, path, run_case):
+    case = load_case(path)
+    res = run_case(case)
+    close_drvs()
+    probs = res.get("problems", [])
+    findings = Findings(prop)
+    new = 0
+    for fp, what in [(p[0], p[1]) for p in probs]:
+        k = findings.match(fp)
+        if k:
+            print("KNOWN-FINDING: property=%s %s" % (prop, k["what"]))
+        else:
+            new += 1
+            print("VIOLATION property=%s replay=%s" % (prop, path))
+            print("  fingerprint: %s" % fp)
+            for l in what.splitlines()[:20]:
+                print("  " + l)
+    if not probs:
+        print("replay of %s: property holds on this case" % path)
+    return 1 if new else 0
